@@ -128,7 +128,8 @@ class E3:
             paths = interp.explore(thunk)
         except Unsupported as e:
             if not getattr(self.tc, "point_mode", False):
-                self.tc.add_result("engine", "unsupported", detail=str(e))
+                r = self.tc.add_result("engine", "unsupported", detail=str(e))
+                r.clause, r.replay = "engine", (self.native, self.hints)      # the native-search fallback decides on the real function
             return None
         p = paths[0]
         if p.outcome != "return" and getattr(self.tc, "point_mode", False):
